@@ -35,6 +35,11 @@ static LEAF_CACHE: Mutex<Option<HashMap<String, Arc<Bits>>>> = Mutex::new(None);
 
 /// Membership of all scalars in a leaf, measured through the public API.
 pub fn leaf_bits(src: &str) -> Result<Arc<Bits>, String> {
+    leaf_bits_opt(src, true)
+}
+
+/// `cache = false` for one-off measurements (C08 measures ~10^5 distinct whole classes of 139 KB each)
+pub fn leaf_bits_opt(src: &str, cache: bool) -> Result<Arc<Bits>, String> {
     if let Some(b) = LEAF_CACHE.lock().unwrap().get_or_insert_with(HashMap::new).get(src) {
         return Ok(b.clone());
     }
@@ -63,7 +68,9 @@ pub fn leaf_bits(src: &str) -> Result<Arc<Bits>, String> {
         }
     }
     let b = Arc::new(bits);
-    LEAF_CACHE.lock().unwrap().get_or_insert_with(HashMap::new).insert(src.to_string(), b.clone());
+    if cache {
+        LEAF_CACHE.lock().unwrap().get_or_insert_with(HashMap::new).insert(src.to_string(), b.clone());
+    }
     Ok(b)
 }
 
